@@ -19,7 +19,7 @@ import (
 // Ctx is what a rule sees.
 type Ctx struct {
 	*Program
-	Tier string // quick | thorough
+	Tier  string // quick | thorough
 	CGAlg string // cha | vta
 
 	cg       *callgraph.Graph
